@@ -1716,6 +1716,8 @@ class Bits:
             width_excluding_offset_and_final_group = width - offset_width - group_chars1 - group_chars2 - len(
                 format_sep) * bool(group_chars2)
             width_excluding_offset_and_final_group = max(width_excluding_offset_and_final_group, 0)
+            if total_group_chars == 0:
+                raise ValueError(f"Can't use the format '{dtype1}' with an empty separator in pp() as it would print nothing.")
             groups_per_line = 1 + width_excluding_offset_and_final_group // total_group_chars
             max_bits_per_line = groups_per_line * bits_per_group  # Number of bits represented on each line
         else:
